@@ -3,6 +3,7 @@
    args = mode (tcp | udp), then one string per observed event:
      si.i  start call i invoked          se.i  start call i returned the already-started error
      n     NotifyStartedFunc called      ao.c  Accept returned connection c
+     fs    the serving start call returned the PacketConnReader error (failed start)
      ae    Accept returned an error      pk.p  ReadFrom returned packet p
      re    ReadFrom returned an error    sf    non-temporary listener error injected
      sr.v  serve call returned (0 nil, 1 error)
@@ -35,6 +36,7 @@ Definition parse_event (s : string) : option label :=
   if String.eqb k "si" then Some (StInvoke a)
   else if String.eqb k "se" then Some (StReturnErr a)
   else if String.eqb k "n" then Some Notify
+  else if String.eqb k "fs" then Some SFailStart
   else if String.eqb k "ao" then Some (SAcceptOk a)
   else if String.eqb k "ae" then Some SAcceptErr
   else if String.eqb k "pk" then Some (SPacket a)
